@@ -166,6 +166,7 @@ func runX(t *testing.T, ch *vs.Choices, prop, tier string, render bool) *vs.RunO
 	}
 	p := genG(ch, b)
 	p.Parallel = len(p.Roots) > 1
+	listFirst := ch.Bool(1, 3)
 	yaml := p.YAML()
 	out.Shape = vs.HashString(yaml + fmt.Sprint(p.Config()))
 	out.Strategy = "batch-release"
@@ -205,6 +206,13 @@ func runX(t *testing.T, ch *vs.Choices, prop, tier string, render bool) *vs.RunO
 			if err := e.Setup(); err != nil {
 				done <- fmt.Errorf("setup: %w", err)
 				return
+			}
+			if listFirst {
+				// the listing modes compile every task in its own goroutine
+				if _, err := e.ListTasks(task.ListOptions{ListAllTasks: true, FormatTaskListAsJSON: true}); err != nil {
+					done <- fmt.Errorf("setup: list: %w", err)
+					return
+				}
 			}
 			var calls []*task.Call
 			for i, r := range p.Roots {
